@@ -66,6 +66,8 @@ def summarize(sim):
     return {
         "result": sim.result,
         "ran": {n: w.ran for n, w in sim.workers.items()},
+        "completed": {n: w.completed for n, w in sim.workers.items()},
+        "crash_info": sim.crash_info,
         "dead": sorted(n for n, w in sim.workers.items() if w.dead),
         "exited": sorted(n for n, w in sim.workers.items() if w.exited),
         "sent": sim.sent,
@@ -126,7 +128,7 @@ def run_online(job):
             labels.append(lab)
             obs.append(sim.step(lab))
         out = {"cfg": cfg, "wire": cfg_wire(cfg), "labels": labels, "obs": obs, "stuck": stuck,
-               "summary": summarize(sim), "hooklog": [h for h in sim.hooklog if h]}
+               "summary": summarize(sim), "ctl_events": sim.ctl_events}
     finally:
         sim.dispose()
     return out
@@ -136,8 +138,8 @@ def run_replay(job):
     sim = Sim(job["cfg"])
     try:
         obs = [sim.step(l) for l in job["labels"]]
-        return {"obs": obs, "summary": summarize(sim), "hooklog": [h for h in sim.hooklog if h],
-                "stuck": (sim.result is None and not sim.enabled())}
+        return {"cfg": job["cfg"], "labels": job["labels"], "obs": obs, "summary": summarize(sim),
+                "ctl_events": sim.ctl_events, "stuck": (sim.result is None and not sim.enabled())}
     finally:
         sim.dispose()
 
